@@ -190,6 +190,10 @@ class RemoteProxy(BaseProxy):
         return self._meta
 
     async def send(self, request: Any) -> Any:
+        if self._channel._receiver_task.done():
+            # The simulator has closed its connection (the channel has
+            # stopped receiving), so nobody would ever deliver a reply.
+            raise ConnectionResetError("The simulator has closed its connection.")
         return await self._channel.send(request)
 
     async def stop(self) -> None:
